@@ -224,7 +224,21 @@ Proof. rewrite expand_as_name_S. repeat io_step IH. Qed.
 Lemma io_ep p s : sat (expand_param reg data ft (S f) p s) okt ioq True.
 Proof. rewrite expand_param_S. repeat io_step IH. Qed.
 Lemma io_ch hid h s : sat (call_helper reg data ft (S f) hid h s) okt ioq True.
-Proof. rewrite call_helper_S. cbv zeta. repeat io_step IH. Qed.
+Proof.
+  rewrite call_helper_S. cbv zeta. destruct hid; try solve [repeat io_step IH].
+  (* HLocal: the capture bracket of the "c:" mode — the private buffer never fails *)
+  cbn [has_call_inner]. destruct (starts_with _ name); [|repeat io_step IH].
+  destruct (hv_tpl h) as [t|]; [|exact I].
+  match goal with
+  | |- sat (match render_template _ _ _ _ _ ?s1 with _ => _ end) _ _ _ =>
+      pose proof (h_rt IH t s1) as Y;
+      destruct (no_retract reg data ft f) as (NR & _); specialize (NR t s1);
+      destruct (render_template reg data ft f t s1) as [u s2|e s2|p|]; cbn [sat] in *; try exact I
+  end.
+  - repeat io_step IH.
+  - intros He. exfalso. specialize (Y He). destruct Y as (k & Hk & _).
+    destruct (NR s2 eq_refl) as (_ & _ & _ & _ & Hf & _). cbn in Hk, Hf. congruence.
+Qed.
 Lemma io_ed dt s : sat (eval_decorator reg data ft (S f) dt s) okt ioq True.
 Proof. rewrite eval_decorator_S. repeat io_step IH. Qed.
 Lemma io_rp dt s : sat (render_partial reg data ft (S f) dt s) okt ioq True.
